@@ -379,6 +379,7 @@ Return(e) ==
             <<"rt_nx_eq_nf_without_averaging", {"C02"}, (sol /\ Cfg.onesample) => e.nx = e.nf>>,
             <<"rt_bounds_exact", {"C01", "C08", "C05", "C06"}, sol => \A j \in 1..Len(e.xpos) : e.xpos[j] \in 1..3>>,
             <<"rt_x_finite", {"C08"}, sol => e.xfin>>,
+            <<"exception_not_swallowed", {"C08"}, ~raisedSeen>>,      \* an exception raised by the objective reaches the caller: solve does not return
             <<"rt_en_in_range", {"C03", "C08"}, sol => e.en \in 1..nx>>,
             <<"rt_x_is_evaluated_point", {"C03", "C08"}, sol => e.xok \in {"t", "r"}>>,
             <<"rt_x_not_reprojected", {"C03"}, sol => e.xok # "r">>,
